@@ -19,62 +19,34 @@ open Spec
 def string_roundtrip_full : Prop :=
   ∀ v : List UInt8, decodeLuau (writeString v) = some v
 
-/-- F14 witness: `]]` + 60 × `x` + `]=` -/
+/-- `string_roundtrip`: for EVERY byte string `v`, whatever quoting form `write_string` picks
+(single, double, long bracket of any level, with the extra leading line break), the Luau lexer
+reads the text as exactly one string token denoting `v`. (Before the fix of F14 in
+`write_long_bracket` — the closer is now searched in the value followed by `]` — this held only
+outside the "straddling" region.) -/
+theorem string_roundtrip (v : List UInt8) : decodeLuau (writeString v) = some v :=
+  decodeLiteral_writeString .luau true v (Or.inl rfl) (fun _ h => absurd h (by decide))
+
+theorem string_roundtrip_full_holds : string_roundtrip_full := string_roundtrip
+
+/-- the F14 witness `]]` + 60 × `x` + `]=` (regression) -/
 def f14Witness : List UInt8 := [93, 93] ++ List.replicate 60 120 ++ [93, 61]
 
-theorem f14Witness_straddles : straddles f14Witness = true := by
+-- the fixed writer takes the long-bracket form for it, at level 2 (level 1 would straddle) …
+example : usesLongBracket f14Witness = true := by
   have h1 : wantsLongBracket f14Witness = true := by decide +kernel
-  have h2 := fromUtf8_of_longContent f14Witness (wantsLongBracket_content _ h1)
-  have h3 : (93 :: List.replicate (longLevel f14Witness) 61).isSuffixOf f14Witness = true := by
-    decide +kernel
-  simp [straddles, usesLongBracket, h1, h2, h3]
+  simp only [usesLongBracket, h1, fromUtf8_of_longContent _ (wantsLongBracket_content _ h1), Bool.and_self]
+example : longLevel f14Witness = 2 := by decide +kernel
+-- … and the literal reads back
+example : decodeLuau (writeString f14Witness) = some f14Witness := string_roundtrip _
 
-/-- On the straddling region the written text is not even one string token (the token ends
-one byte early; `=]`-junk follows): F14 is exactly this region. -/
-theorem string_straddle_breaks (v : List UInt8) (h : straddles v = true) :
-    decodeLuau (writeString v) = none :=
-  decodeLiteral_straddle .luau true v h
-
-example : decodeLuau (writeString f14Witness) = none :=
-  string_straddle_breaks _ f14Witness_straddles
-
-/-- The full statement is false of the code as it is (finding F14). -/
-theorem string_roundtrip_full_false : ¬ string_roundtrip_full := by
-  intro h
-  have h1 := h f14Witness
-  rw [string_straddle_breaks _ f14Witness_straddles] at h1
-  exact absurd h1 (by simp)
-
-/-- Outside the straddling region (a decidable condition, `H₁₃ v := straddles v = false`)
-every byte string survives: whatever quoting form `write_string` picks, the Luau lexer
-reads the text as exactly one string token denoting `v`. -/
-theorem string_roundtrip_partial (v : List UInt8) (H : straddles v = false) :
-    decodeLuau (writeString v) = some v :=
-  decodeLiteral_writeString .luau true v (Or.inl rfl) H (fun _ h => absurd h (by decide))
-
-/-- `H₁₃` is exact: the literal survives iff the value is outside the straddling region. -/
-theorem string_roundtrip_iff (v : List UInt8) :
-    decodeLuau (writeString v) = some v ↔ straddles v = false := by
-  constructor
-  · intro h
-    cases hs : straddles v with
-    | false => rfl
-    | true => rw [string_straddle_breaks v hs] at h; exact absurd h (by simp)
-  · exact string_roundtrip_partial v
-
--- non-vacuity: a long value ending in `]` (level-1 brackets), outside the region
+-- non-vacuity on the other forms: a long value ending in `]`, and a short one with escapes
 def okLongValue : List UInt8 := [93, 93] ++ List.replicate 60 120 ++ [61, 93]
-example : straddles okLongValue = false := by
-  have h3 : (93 :: List.replicate (longLevel okLongValue) 61).isSuffixOf okLongValue = false := by
-    decide +kernel
-  simp only [straddles, h3, Bool.and_false]
 example : usesLongBracket okLongValue = true := by
   have h1 : wantsLongBracket okLongValue = true := by decide +kernel
   simp only [usesLongBracket, h1, fromUtf8_of_longContent _ (wantsLongBracket_content _ h1), Bool.and_self]
--- non-vacuity: short values are never in the region
-example : straddles [27, 48, 39, 34, 92, 0xc3, 0xa9] = false := by
-  have : wantsLongBracket [27, 48, 39, 34, 92, 0xc3, 0xa9] = false := by decide
-  simp [straddles, usesLongBracket, this]
+example : decodeLuau (writeString [27, 48, 39, 34, 92, 0xc3, 0xa9]) = some [27, 48, 39, 34, 92, 0xc3, 0xa9] :=
+  string_roundtrip _
 
 /-- The quoted form is right unconditionally: for every byte string, valid UTF-8 or not,
 with every escape (`\a\b\f\n\r\t\v\\`, quote, `\ddd` padded to three digits exactly when a
@@ -90,24 +62,24 @@ theorem quoted_roundtrip_lua51 (v : List UInt8) (H : hasUnicodeEscape v = false)
     decodeLua51 (writeQuoted v) = some v :=
   decodeLiteral_writeQuoted .lua51 true v (Or.inr H)
 
-/-- Lua 5.1 reads the literal back as `v` when no `\u{…}` is emitted, the value is outside
-the F14 region, and the level-0 long-bracket form does not contain `[[` (which stock
-Lua 5.1 rejects as "nesting of [[...]] is deprecated"). `lua51Safe` is decidable. -/
+/-- Lua 5.1 reads the literal back as `v` when no `\u{…}` is emitted and the level-0
+long-bracket form does not contain `[[` (which stock Lua 5.1 rejects as "nesting of [[...]] is
+deprecated"). `lua51Safe` is decidable. -/
 theorem lua51_roundtrip (v : List UInt8) (H : lua51Safe v = true) :
     decodeLua51 (writeString v) = some v := by
   simp only [lua51Safe, Bool.and_eq_true, Bool.not_eq_true'] at H
-  obtain ⟨⟨hu, hs⟩, hn⟩ := H
-  refine decodeLiteral_writeString .lua51 true v (Or.inr hu) hs ?_
+  obtain ⟨hu, hn⟩ := H
+  refine decodeLiteral_writeString .lua51 true v (Or.inr hu) ?_
   intro _ _ huse hlvl
   rw [hasNestedOpen_eq]
   simpa [nestedOpen51, huse, hlvl] using hn
 
 /-- By the grammar of the Lua 5.1 manual alone (a build without `LUA_COMPAT_LSTR`) the `[[`
-restriction disappears: only `\u{…}` and the F14 region remain excluded. So F14b is a defect
-with respect to the stock build (and `LUA_COMPAT_LSTR = 2`), not with respect to §2.1. -/
-theorem lua51_manual_roundtrip (v : List UInt8) (hu : hasUnicodeEscape v = false)
-    (hs : straddles v = false) : decodeLua51Manual (writeString v) = some v :=
-  decodeLiteral_writeString .lua51 false v (Or.inr hu) hs (fun h => absurd h (by decide))
+restriction disappears: only `\u{…}` remains excluded. So F14b is a defect with respect to the
+stock build (and `LUA_COMPAT_LSTR = 2`), not with respect to §2.1. -/
+theorem lua51_manual_roundtrip (v : List UInt8) (hu : hasUnicodeEscape v = false) :
+    decodeLua51Manual (writeString v) = some v :=
+  decodeLiteral_writeString .lua51 false v (Or.inr hu) (fun h => absurd h (by decide))
 
 example : lua51Safe [27, 48, 39, 34, 92, 0xff] = true := by
   have h1 : wantsLongBracket [27, 48, 39, 34, 92, 0xff] = false := by decide
@@ -141,7 +113,7 @@ example : lua51Safe [27, 48, 39, 34, 92, 0xff] = true := by
               · simp at hmem
                 rcases hmem with h | h | h | h <;> (have := congrArg UInt8.toNat h; simp at this; omega))
       · exact absurd h (by decide)
-  simp [lua51Safe, h2, straddles, nestedOpen51, usesLongBracket, h1]
+  simp [lua51Safe, h2, nestedOpen51, usesLongBracket, h1]
 
 /-- Interpolated-string segments: the text `write_interpolated_string_segment` produces,
 followed by a segment terminator (`` ` `` or `{`) and anything else, is read back by Luau as
